@@ -95,6 +95,9 @@ def run_array_cases(cases, res):
                 if c['route'] == 'set_val' or raw: x.set_val(val, raw=raw)
                 else: x(val)
             obs = {'codes': lib.codes_of(x), 'st': lib.status3(x)[:2], 'extp': x.status.get('extended_prec')}
+            # an element taken out of the wide array is a fixed-point object like any other: bitwise operators, int(), bin()
+            e = x[0]; c0 = obs['codes'][0]; mask = (1 << n) - 1
+            obs['elem'] = (lib.codes_of(e | 1)[0], lib.codes_of(e ^ 1)[0], lib.codes_of(e & 3)[0], lib.codes_of(~e)[0], int(e) if nf == 0 else None, e.bin())
         except Exception as e:
             res.fail(c, 'C18: storing a list of wide integers raised %s' % lib.exc_name(e), got=str(e)[:300]); continue
         scaled = [v if raw else v * (1 << nf) for v in c['cs']]
@@ -112,6 +115,11 @@ def run_array_cases(cases, res):
             res.fail(c, 'C18: overflow/underflow flags of a wide array store are not exact', expected=(so, su), got=obs['st']); continue
         if obs['extp'] is not True:
             res.fail(c, 'C18: the extended-precision indicator is not set for n_word >= 64', expected=True, got=obs['extp']); continue
+        c0 = want[0]; mask = (1 << n) - 1; u = c0 & mask
+        def code(p): return p - (1 << n) if (s and p >= (1 << (n - 1))) else p
+        want_e = (code(u | 1), code(u ^ 1), code(u & 3), code(mask - u), c0 if nf == 0 else None, c11.py_bin(n, c0))
+        if tuple(obs['elem']) != want_e:
+            res.fail(c, 'C18: an element indexed out of a wide array does not behave as a fixed-point object (| ^ & ~ int bin)', expected=[str(t) for t in want_e], got=[str(t) for t in obs['elem']]); continue
 
 def indicator(rng, res, n_cases):
     cases = []
